@@ -442,6 +442,33 @@ class C19(PropBase):
         return "Q %d %d %d %d %d %d %d %d %s %s %s %s %s" % (arch, os_, code, flags, nparams, info0, info1, excaddr, ctxs, instr, stacks,
                                                              decs, self.fmt_regs(kind, regs))
 
+    def gen_q_ppc64(self, rng, dist):
+        """a PPC64 dump WITH an exception context (39 registers): a live non-amd64 platform — no instruction analysis, no
+        register pass, BitRange::All, heuristics over the ppc64 register file"""
+        os_ = rng.choice([1, 1, 2, 3])
+        kind = rng.below(2) if os_ == 1 else 0
+        code, flags = rng.choice([(11, 1), (11, 2), (7, 2), (11, 0x80), (1, 1), (4, 0)])
+        regs = self.gen_regions(rng, kind, rng.below(1 << 47))
+        if regs and rng.chance(3, 4):
+            r = rng.choice(regs)
+            cand = (r[0] + rng.below(64)) & U64
+        else:
+            cand = rng.choice([0, rng.below(1 << 47), 1 << rng.below(64)])
+        a = (cand ^ (1 << rng.below(64))) & U64
+        k = rng.range(0, 39)
+        ctx = []
+        for i in range(39):
+            if i < k:
+                ctx.append((cand + rng.range(-4096, 4096)) & U64)
+            else:
+                st = rng.below(4)
+                if st == 0:
+                    ctx.append(int.from_bytes(bytes([rng.choice(POISON + [0, 0xff, 0x11])]) * 8, "little"))
+                else:
+                    ctx.append(rng.choice([0, 1, U64, rng.below(1 << 64), rng.below(1 << 20)]))
+        dist["Q_ppc64_ctx"] = dist.get("Q_ppc64_ctx", 0) + 1
+        return "Q 32770 %d %d %d 0 0 %d %d W %s - - - %s" % (os_, code, flags, a, a, " ".join(map(str, ctx)), self.fmt_regs(kind, regs))
+
     def gen_cases(self, tier, seed):
         rng = Rng(seed)
         cases = []
@@ -567,6 +594,9 @@ class C19(PropBase):
         for _ in range(8000 if tier == "quick" else 60000):
             cases.append(self.gen_q(rng, dist))
             dist["Q"] = dist.get("Q", 0) + 1
+        for _ in range(600 if tier == "quick" else 6000):
+            cases.append(self.gen_q_ppc64(rng, dist))
+            dist["Q"] = dist.get("Q", 0) + 1
         return cases, dist, False
 
     def canon_impl(self, case, ans, profile):
@@ -656,6 +686,8 @@ class C19(PropBase):
         ctx = None
         if t[i] == "-":
             i += 1
+        elif t[i] == "W":
+            i += 40        # ppc64 context: no register pass on this platform
         else:
             ctx = [int(x) for x in t[i + 1:i + 18]]
             i += 18
